@@ -326,6 +326,32 @@ func runHostile(s string) []string {
 	check("Rcpt.ORCPT.utf8", func(cl *smtp.Client, fs *fakeServer) error {
 		return cl.Rcpt("t@x.test", &smtp.RcptOptions{OriginalRecipientType: smtp.DSNAddressTypeUTF8, OriginalRecipient: "o" + s})
 	})
+	// string-typed options with a fixed vocabulary: a valid word with the
+	// hostile string on either side
+	for _, v := range []string{"FULL" + s, s + "HDRS"} {
+		v := v
+		check("Mail.Return", func(cl *smtp.Client, fs *fakeServer) error {
+			return cl.Mail("f@x.test", &smtp.MailOptions{Return: smtp.DSNReturn(v)})
+		})
+	}
+	for _, v := range []string{"8BITMIME" + s, s + "7BIT"} {
+		v := v
+		check("Mail.Body", func(cl *smtp.Client, fs *fakeServer) error {
+			return cl.Mail("f@x.test", &smtp.MailOptions{Body: smtp.BodyType(v)})
+		})
+	}
+	for _, v := range []string{"SUCCESS" + s, s + "NEVER"} {
+		v := v
+		check("Rcpt.Notify", func(cl *smtp.Client, fs *fakeServer) error {
+			return cl.Rcpt("t@x.test", &smtp.RcptOptions{Notify: []smtp.DSNNotify{smtp.DSNNotify(v)}})
+		})
+	}
+	for _, v := range []string{"rfc822" + s, s + "utf-8"} {
+		v := v
+		check("Rcpt.ORCPT.type", func(cl *smtp.Client, fs *fakeServer) error {
+			return cl.Rcpt("t@x.test", &smtp.RcptOptions{OriginalRecipientType: smtp.DSNAddressType(v), OriginalRecipient: "o@x.test"})
+		})
+	}
 	return probs
 }
 
@@ -413,7 +439,7 @@ func init() {
 				probs := runHostile(s)
 				mu.Lock()
 				defer mu.Unlock()
-				nh += 8
+				nh += 16
 				for _, p := range probs {
 					what := p
 					if j := strings.IndexByte(p, '('); j > 0 {
